@@ -459,3 +459,38 @@ where
         Ok(())
     }
 }
+
+#[cfg(feature = "verif-hooks")]
+impl<W, E, CommandBuffer, HistoryBuffer> Cli<W, E, CommandBuffer, HistoryBuffer>
+where
+    W: Write<Error = E>,
+    E: embedded_io::Error,
+    CommandBuffer: Buffer,
+    HistoryBuffer: Buffer,
+{
+    /// Bytes of the line being edited
+    pub fn verif_editor_text(&self) -> Option<&[u8]> {
+        self.editor.as_ref().map(|e| e.text().as_bytes())
+    }
+
+    /// Cursor (in chars) of the line being edited
+    pub fn verif_editor_cursor(&self) -> Option<usize> {
+        self.editor.as_ref().map(|e| e.cursor())
+    }
+
+    /// Used part of history buffer and history cursor
+    #[cfg(feature = "history")]
+    pub fn verif_history_raw(&self) -> (&[u8], Option<usize>) {
+        self.history.verif_raw()
+    }
+
+    /// Prompt currently in force
+    pub fn verif_prompt(&self) -> &'static str {
+        self.prompt
+    }
+
+    /// Mutable access to underlying writer
+    pub fn verif_writer_mut(&mut self) -> &mut W {
+        &mut self.writer
+    }
+}
